@@ -205,6 +205,21 @@ impl Check for C14 {
                 let t = ty.tag().unwrap();
                 // untagged input offered to the tagged entry point
                 check_tagged_input(ctx, ty, None, false, &body, &body, "no tag");
+                // the registered tag around an acceptable body, followed by more bytes: that is the tag
+                // applied to `body || suffix`, which the untagged decoder does not accept
+                let tagged_once = rcbor::det(&Item::Tag(t, Box::new(body_item.clone())));
+                for suffix in [vec![0x00u8], vec![0xff], vec![0xf6], vec![0x40], vec![0xa0], body.clone(), tagged_once.clone(), ctx.rng.bytes(3)] {
+                    for head in tag_heads(t) {
+                        let mut x = head.clone();
+                        x.extend_from_slice(&body);
+                        x.extend_from_slice(&suffix);
+                        let mut bs = body.clone();
+                        bs.extend_from_slice(&suffix);
+                        ctx.nontrivial_bytes(&x);
+                        ctx.count("trailing-bytes-after-tagged");
+                        check_tagged_input(ctx, ty, Some(t), true, &x, &bs, "single tag, trailing bytes");
+                    }
+                }
                 // wrappers that are "no-ops" elsewhere (self-described CBOR, embedded CBOR, CWT, date/time,
                 // bignum tags) must not be looked through, on either side of the registered tag, nor
                 // around a bstr holding the encoded body
@@ -327,7 +342,7 @@ impl Check for C14 {
         }
     }
     fn rule(&self) -> String {
-        "matrix of {6 taggable types} x {tag numbers: the six registered ones, +-1 neighbours, 0,1,2,3,23,24,61,255,256,55799, 2^16, 2^32 boundaries, 2^64-1, and every registered number plus 2^8, 2^16, 2^32, 2^40, 3*2^32 and shifted copies (truncation aliases)} x {every legal tag head width} x {bodies: accepted for that type, accepted for another type of the same shape, mutated, non-array}; untagged, doubly tagged (same / different / 55799 outer and inner), tag inside the array; encode side to_tagged_vec vs registered head || to_vec with cross-type decoding. Reference for 'body acceptable' is the crate's own untagged decoder (the property is relative to it); tag numbers come from the harness's RFC 8152 Table 1. Non-trivial = distinct tagged inputs.".into()
+        "matrix of {6 taggable types} x {tag numbers: the six registered ones, +-1 neighbours, 0,1,2,3,23,24,61,255,256,55799, 2^16, 2^32 boundaries, 2^64-1, and every registered number plus 2^8, 2^16, 2^32, 2^40, 3*2^32 and shifted copies (truncation aliases)} x {every legal tag head width} x {bodies: accepted for that type, accepted for another type of the same shape, mutated, non-array}; untagged, doubly tagged (same / different / 55799 outer and inner), tag inside the array, the registered tag around an acceptable body followed by trailing bytes, bodies nested 1-258 levels deep; encode side to_tagged_vec vs registered head || to_vec with cross-type decoding. Reference for 'body acceptable' is the crate's own untagged decoder (the property is relative to it); tag numbers come from the harness's RFC 8152 Table 1. Non-trivial = distinct tagged inputs.".into()
     }
     fn assumptions(&self) -> Vec<String> {
         vec!["RFC 8152 Table 1 tag numbers (98, 18, 96, 16, 97, 17) are frozen in the harness".into(), "acceptability of an untagged body is taken from the crate's untagged decoder, as the property states it relative to that decoder (its correctness is C09's subject)".into()]
